@@ -438,6 +438,9 @@ func (fr *Frame) markerCall(fn *ssa.Function, args []Val, pos token.Pos, resType
 			} else {
 				v = fr.havocVal(rt, "ret_"+fn.Name())
 			}
+			if v.T != nil && hasPointers(rt, 0) {
+				fr.markAlive(v.T, rt)
+			}
 			res = append(res, v)
 		}
 		mk.results = res
@@ -490,10 +493,7 @@ func (fr *Frame) havocTarget(t modTarget) {
 		v := fr.havocVal(t.typ, "mod")
 		fr.store(Val{Ptr: t.ptr}, t.typ, v.T, token.NoPos, false)
 	case "elems":
-		k := elemKey(t.elem)
-		es := sortOf(t.elem)
-		heap := fr.cur.get(k, SArray(SRef, SArray(SInt, es)))
-		fr.cur.set(k, Store(heap, DataField_(t.sl, 0), FreshVar("modelems", SArray(SInt, es))))
+		elemHavocInners(fr.cur, elemKey(t.elem), sortOf(t.elem), DataField_(t.sl, 0), "modelems")
 	case "obj":
 		u, ok := t.typ.Underlying().(*types.Struct)
 		if !ok {
@@ -566,17 +566,17 @@ func (c *Ctx) frameCheck(fr *Frame, mk *markerInfo, args []Val, pos token.Pos) {
 					} else {
 						tk = cellKey(t.ptr.Obj)
 					}
-					if tk == k {
+					if tk == baseKey(k) {
 						excl = append(excl, Eq(r, t.ptr.Ref))
 					}
 				case "obj":
 					if u, ok := t.typ.Underlying().(*types.Struct); ok {
 						for i := 0; i < u.NumFields(); i++ {
-							if fieldKey(t.typ, i) == k {
+							if fieldKey(t.typ, i) == baseKey(k) {
 								excl = append(excl, Eq(r, t.ptr.Ref))
 							}
 						}
-					} else if cellKey(t.typ) == k {
+					} else if cellKey(t.typ) == baseKey(k) {
 						excl = append(excl, Eq(r, t.ptr.Ref))
 					}
 				}
@@ -591,10 +591,10 @@ func (c *Ctx) frameCheck(fr *Frame, mk *markerInfo, args []Val, pos token.Pos) {
 			ix := FreshVar("frame_idx", SInt)
 			var excl []*Term
 			for _, t := range targets {
-				if t.kind == "elems" && elemKey(t.elem) == k {
+				if t.kind == "elems" && elemKey(t.elem) == baseKey(k) {
 					excl = append(excl, Eq(r, DataField_(t.sl, 0)))
 				}
-				if t.kind == "loc" && t.ptr != nil && t.ptr.Root == RootElem && elemKey(t.ptr.Elem) == k {
+				if t.kind == "loc" && t.ptr != nil && t.ptr.Root == RootElem && elemKey(t.ptr.Elem) == baseKey(k) {
 					excl = append(excl, And(Eq(r, t.ptr.Arr), Eq(ix, t.ptr.Idx)))
 				}
 			}
@@ -720,8 +720,14 @@ func (fr *Frame) specHelper(name string, fn *ssa.Function, args []Val, pos token
 		}
 		return Val{T: And(Not(Select(base, ref)), Not(Eq(ref, BVLit(0, 64))))}, true
 	case "vcIsNaN":
+		if floatMode == 0 {
+			return Val{T: UFApp("ofp.isnan", SBool, args[0].T)}, true
+		}
 		return Val{T: App("fp.isNaN", SBool, args[0].T)}, true
 	case "vcBits":
+		if floatMode == 0 {
+			return Val{T: args[0].T}, true
+		}
 		return Val{T: fpToBits(c, args[0].T)}, true
 	case "vcNonNilErr":
 		return Val{T: Not(Eq(DataField_(args[0].T, 0), BVLit(0, 32)))}, true
@@ -835,69 +841,67 @@ func (fr *Frame) appendOp(cc *ssa.CallCommon, args []Val, pos token.Pos) Val {
 	et := st.Elem()
 	s := args[0].T
 	add := args[1].T
-	var addLen *Term
-	addLen = DataField_(add, 2)
+	addLen := DataField_(add, 2)
 	k := elemKey(et)
 	es := sortOf(et)
-	heapSort := SArray(SRef, SArray(SInt, es))
-	heap := fr.cur.get(k, heapSort)
 	ln, cp := DataField_(s, 2), DataField_(s, 3)
+	off := DataField_(s, 1)
 	newLen := BV("bvadd", ln, addLen)
 	fits := BVCmp("bvsle", newLen, cp)
-	// number of appended elements known statically? (append(s, x) creates a 1-element slice via new array + slice)
 	n, known := uint64(0), false
 	if v, ok := addLen.IsLitBV(); ok && v <= 8 {
 		n, known = v, true
 	}
-	// fresh array case
+	if known && n == 0 {
+		return Val{T: s}
+	}
 	narr := c.freshRef(fr, et, "append")
 	ncap := FreshVar("append_cap", SInt)
 	c.assume(And(BVCmp("bvsge", ncap, newLen), BVCmp("bvsle", ncap, BVLit(maxLen, 64))))
 	c.assume(Implies(fr.abs(), BVCmp("bvsle", newLen, BVLit(maxLen, 64))))
-	srcInner := Select(heap, DataField_(s, 0))
-	addInner := Select(fr.cur.get(elemKey(et), heapSort), DataField_(add, 0))
+	srcInners := elemInners(fr.cur, k, es, DataField_(s, 0))
+	var addInners []*Term
 	if isString(cc.Args[1].Type()) {
-		addInner = Select(fr.cur.get("e:str", SArray(SRef, SArray(SInt, SBV(8)))), DataField_(add, 0))
+		addInners = []*Term{Select(fr.cur.get("e:str", SArray(SRef, SArray(SInt, SBV(8)))), DataField_(add, 0))}
+	} else {
+		addInners = elemInners(fr.cur, k, es, DataField_(add, 0))
+	}
+	ls := leavesOf(es)
+	inPlace := make([]*Term, len(ls))
+	fresh := make([]*Term, len(ls))
+	for li, lf := range ls {
+		src := srcInners[li]
+		fr_ := FreshVar("append_contents", SArray(SInt, lf.sort))
+		fresh[li] = fr_
+		// fresh array: copy of the old elements
+		q := BoundVar("j", SInt)
+		c.assume(Forall([]*Term{q}, Implies(And(BVCmp("bvsge", q, BVLit(0, 64)), BVCmp("bvslt", q, ln)), Eq(Select(fr_, q), Select(src, BV("bvadd", off, q))))))
+		if known {
+			ip := src
+			for i := uint64(0); i < n; i++ {
+				v := Select(addInners[li], BV("bvadd", DataField_(add, 1), BVLit(i, 64)))
+				ip = Store(ip, BV("bvadd", BV("bvadd", off, ln), BVLit(i, 64)), v)
+				c.assume(Eq(Select(fr_, BV("bvadd", ln, BVLit(i, 64))), v))
+			}
+			inPlace[li] = ip
+		} else {
+			// unknown count: appended range unconstrained, everything else preserved
+			ipv := FreshVar("append_inplace", SArray(SInt, lf.sort))
+			q2 := BoundVar("i", SInt)
+			c.assume(Forall([]*Term{q2}, Implies(Not(And(BVCmp("bvsge", q2, BV("bvadd", off, ln)), BVCmp("bvslt", q2, BV("bvadd", off, newLen)))), Eq(Select(ipv, q2), Select(src, q2)))))
+			inPlace[li] = ipv
+		}
 	}
 	if !known {
-		// unknown count: contents of the appended range are havocked except the old prefix in the in-place case
 		c.note("append of a slice of unknown length: appended contents havocked in " + fr.fn.String())
-		freshInner := FreshVar("append_contents", SArray(SInt, es))
-		// in place: prefix preserved (forall i < len) -- stated with a quantifier-free frame: unknown suffix only
-		// modelled as: new array in both cases, prefix equal through a quantified assumption
-		q := BoundVar("i", SInt)
-		res := Ite(fits, MkData(SSlice, DataField_(s, 0), DataField_(s, 1), newLen, cp), MkData(SSlice, narr, BVLit(0, 64), newLen, ncap))
-		inPlaceInner := FreshVar("append_inplace", SArray(SInt, es))
-		off := DataField_(s, 1)
-		c.assume(Forall([]*Term{q}, Implies(Not(And(BVCmp("bvsge", q, BV("bvadd", off, ln)), BVCmp("bvslt", q, BV("bvadd", off, newLen)))), Eq(Select(inPlaceInner, q), Select(srcInner, q)))))
-		q2 := BoundVar("j", SInt)
-		c.assume(Forall([]*Term{q2}, Implies(And(BVCmp("bvsge", q2, BVLit(0, 64)), BVCmp("bvslt", q2, ln)), Eq(Select(freshInner, q2), Select(srcInner, BV("bvadd", off, q2))))))
-		nh := Ite(fits, Store(heap, DataField_(s, 0), inPlaceInner), Store(heap, narr, freshInner))
-		fr.cur.set(k, nh)
-		return Val{T: res}
 	}
-	// known small count n: write elements one by one
-	off := DataField_(s, 1)
-	inPlace := srcInner
-	for i := uint64(0); i < n; i++ {
-		v := Select(addInner, BV("bvadd", DataField_(add, 1), BVLit(i, 64)))
-		inPlace = Store(inPlace, BV("bvadd", BV("bvadd", off, ln), BVLit(i, 64)), v)
-	}
-	// fresh array: copy of old elements (quantified) + new ones
-	freshInner := FreshVar("append_contents", SArray(SInt, es))
-	q := BoundVar("j", SInt)
-	c.assume(Forall([]*Term{q}, Implies(And(BVCmp("bvsge", q, BVLit(0, 64)), BVCmp("bvslt", q, ln)), Eq(Select(freshInner, q), Select(srcInner, BV("bvadd", off, q))))))
-	for i := uint64(0); i < n; i++ {
-		v := Select(addInner, BV("bvadd", DataField_(add, 1), BVLit(i, 64)))
-		c.assume(Eq(Select(freshInner, BV("bvadd", ln, BVLit(i, 64))), v))
+	// merge the two outcomes per leaf
+	for li, lf := range ls {
+		key := k + lf.suffix
+		h := fr.cur.get(key, elemHeapSort(lf.sort))
+		fr.cur.set(key, Ite(fits, Store(h, DataField_(s, 0), inPlace[li]), Store(h, narr, fresh[li])))
 	}
 	res := Ite(fits, MkData(SSlice, DataField_(s, 0), off, newLen, cp), MkData(SSlice, narr, BVLit(0, 64), newLen, ncap))
-	nh := Ite(fits, Store(heap, DataField_(s, 0), inPlace), Store(heap, narr, freshInner))
-	if n == 0 {
-		nh = heap
-		res = s
-	}
-	fr.cur.set(k, nh)
 	return Val{T: res}
 }
 
@@ -908,23 +912,26 @@ func (fr *Frame) copyOp(cc *ssa.CallCommon, args []Val, pos token.Pos) Val {
 	dst, src := args[0].T, args[1].T
 	k := elemKey(et)
 	es := sortOf(et)
-	heapSort := SArray(SRef, SArray(SInt, es))
-	heap := fr.cur.get(k, heapSort)
 	dl, sl := DataField_(dst, 2), DataField_(src, 2)
 	n := Ite(BVCmp("bvslt", dl, sl), dl, sl)
-	dInner := Select(heap, DataField_(dst, 0))
-	var sInner *Term
+	dInners := elemInners(fr.cur, k, es, DataField_(dst, 0))
+	var sInners []*Term
 	if isString(cc.Args[1].Type()) {
-		sInner = Select(fr.cur.get("e:str", SArray(SRef, SArray(SInt, SBV(8)))), DataField_(src, 0))
+		sInners = []*Term{Select(fr.cur.get("e:str", SArray(SRef, SArray(SInt, SBV(8)))), DataField_(src, 0))}
 	} else {
-		sInner = Select(heap, DataField_(src, 0))
+		sInners = elemInners(fr.cur, k, es, DataField_(src, 0))
 	}
-	nInner := FreshVar("copy_dst", SArray(SInt, es))
-	q := BoundVar("i", SInt)
 	doff, soff := DataField_(dst, 1), DataField_(src, 1)
-	inRange := And(BVCmp("bvsge", q, doff), BVCmp("bvslt", q, BV("bvadd", doff, n)))
-	c.assume(Forall([]*Term{q}, Eq(Select(nInner, q), Ite(inRange, Select(sInner, BV("bvadd", soff, BV("bvsub", q, doff))), Select(dInner, q)))))
-	fr.cur.set(k, Store(heap, DataField_(dst, 0), nInner))
+	ls := leavesOf(es)
+	out := make([]*Term, len(ls))
+	for li, lf := range ls {
+		nInner := FreshVar("copy_dst", SArray(SInt, lf.sort))
+		q := BoundVar("i", SInt)
+		inRange := And(BVCmp("bvsge", q, doff), BVCmp("bvslt", q, BV("bvadd", doff, n)))
+		c.assume(Forall([]*Term{q}, Eq(Select(nInner, q), Ite(inRange, Select(sInners[li], BV("bvadd", soff, BV("bvsub", q, doff))), Select(dInners[li], q)))))
+		out[li] = nInner
+	}
+	elemSetInners(fr.cur, k, es, DataField_(dst, 0), out)
 	return Val{T: n}
 }
 
